@@ -117,7 +117,7 @@ def maskTies {α : Type} (ties : List Nat) (mask : α) (B : List α) : List α :
   B.zipIdx.map (fun (b, i) => if ties.contains i then mask else b)
 
 
-/-! ## Output container of a feature union (known finding: Tabularizer follows the input container) -/
+/-! ## Output container of a feature union (Tabularizer follows the input container; repaired in bec276b) -/
 
 inductive OutKind | frame | array
   deriving DecidableEq, Repr
@@ -132,16 +132,25 @@ def MemberOut.kind (asArr : Bool) : MemberOut → OutKind
   | .alwaysFrame => .frame
   | .followsInput => if asArr then .array else .frame
 
-/-- `FeatureUnion._hstack`: `pd.concat(Xs, axis=1)` as soon as one output is a DataFrame (which raises
-TypeError when another one is an ndarray), `np.hstack` otherwise -/
-def unionHstack (kinds : List OutKind) : Except Err Unit :=
+/-- ORIGINAL `FeatureUnion._hstack` (before /repo bec276b): `pd.concat(Xs, axis=1)` as soon as one output
+is a DataFrame (which raises TypeError when another one is an ndarray), `np.hstack` otherwise -/
+def unionHstackOriginal (kinds : List OutKind) : Except Err Unit :=
   if kinds.contains .frame && kinds.contains .array then .error .type else .ok ()
+
+def unionAcceptsOriginal (members : List MemberOut) (asArr : Bool) : Except Err Unit :=
+  unionHstackOriginal (members.map (MemberOut.kind asArr))
+
+/-- `FeatureUnion._hstack` as it is now: when one output is a DataFrame every output is first turned into
+a DataFrame (`X.reset_index(drop=True)` / `pd.DataFrame(X)`), then `pd.concat`; `np.hstack` otherwise -/
+def unionHstack (kinds : List OutKind) : Except Err Unit :=
+  let kinds' := if kinds.contains .frame then kinds.map (fun _ => OutKind.frame) else kinds
+  if kinds'.contains .frame && kinds'.contains .array then .error .type else .ok ()
 
 def unionAccepts (members : List MemberOut) (asArr : Bool) : Except Err Unit :=
   unionHstack (members.map (MemberOut.kind asArr))
 
 
-/-! ## `pd.concat([A, B], axis=1)` matches rows by index LABEL (known finding: feature unions) -/
+/-! ## `pd.concat([A, B], axis=1)` matches rows by index LABEL (feature unions; repaired in bec276b) -/
 
 def lookupLabel {β : Type} (l : Int) : List (Int × β) → Option β
   | [] => none
@@ -168,11 +177,20 @@ def freshFrom {β : Type} (k : Nat) : List β → List (Int × β)
 
 def freshLabels {β : Type} (rows : List β) : List (Int × β) := freshFrom 0 rows
 
-/-- `FeatureUnion([("a", A), ("b", B)]).transform(X)` where A returns a frame with fresh labels and B
-keeps the labels of X (SeriesToPrimitivesRowTransformer next to Tabularizer) -/
-def unionFreshKept {α β : Type} (fa fb : α → β) (labels : List Int) (X : List α) :
+/-- ORIGINAL code (before /repo bec276b): `FeatureUnion([("a", A), ("b", B)]).transform(X)` where A returns
+a frame with fresh labels and B keeps the labels of X (SeriesToPrimitivesRowTransformer next to
+Tabularizer); the outputs go to `pd.concat` as they are -/
+def unionFreshKeptOriginal {α β : Type} (fa fb : α → β) (labels : List Int) (X : List α) :
     Except Err (List (Option β × Option β)) :=
   concat2 (freshLabels (X.map fa)) (labels.zip (X.map fb))
+
+/-- `X.reset_index(drop=True)` -/
+def resetIndex {β : Type} (F : List (Int × β)) : List (Int × β) := freshLabels (F.map (·.2))
+
+/-- the same union as the code is now: every member output is re-labelled 0..n-1 before `pd.concat` -/
+def unionFreshKept {α β : Type} (fa fb : α → β) (labels : List Int) (X : List α) :
+    Except Err (List (Option β × Option β)) :=
+  concat2 (resetIndex (freshLabels (X.map fa))) (resetIndex (labels.zip (X.map fb)))
 
 /-! ## Pipelines -/
 
